@@ -309,6 +309,55 @@ pub fn case_min(ptype: &'static str, w: &Weights, min_uni: usize, max_uni: usize
         .boxed()
 }
 
+/// A case that starts with bulk insertions (hundreds of prefixes below a universe member) and / or
+/// complete chains of nested prefixes (every length 0..=W), followed by operations that target them.
+pub fn scale_case(ptype: &'static str, w: &Weights, max_ops: usize) -> BoxedStrategy<Case> {
+    let m = || prop_oneof![3 => Just(M::A), 1 => Just(M::B)];
+    let bulk = prop_oneof![
+        2 => (pref(), 120u16..=420, any::<u64>(), m()).prop_map(|(under, n, seed, m)| Op::BulkInsert { m, under, n, seed }),
+        1 => (pref(), any::<u64>(), m()).prop_map(|(along, seed, m)| Op::ChainInsert { m, along, seed }),
+    ];
+    (usteps(3, 10), vec(bulk, 1..=3), history(w, max_ops), any::<u64>())
+        .prop_map(move |(usteps, bulks, ops, salt)| {
+            // targeted follow-ups: bulk removal at (and above) the bulk roots, then the generic operations
+            let mut all = bulks.clone();
+            let mut s = salt;
+            for b in &bulks {
+                s = splitmix(s);
+                match b {
+                    Op::BulkInsert { m, under, .. } => match s % 4 {
+                        0 => all.push(Op::RemoveChildren { m: *m, p: *under }),
+                        1 => all.push(Op::Retain { m: *m, pred: Pred::NotCoveredBy(*under) }),
+                        2 => all.push(Op::Retain { m: *m, pred: Pred::HashBit((s >> 8) as u8) }),
+                        _ => {}
+                    },
+                    Op::ChainInsert { m, .. } => {
+                        // the chain members sit at the end of the (extended) universe: high indices
+                        for j in 0..3u16 {
+                            s = splitmix(s);
+                            let p = PRef { i: 0xFFFF - ((s % 400) as u16) * (j + 1), noise: 0 };
+                            match s % 3 {
+                                0 => all.push(Op::Remove { m: *m, p }),
+                                1 => all.push(Op::ChildrenMut { m: *m, p, mask: s }),
+                                _ => all.push(Op::RemoveKeepTree { m: *m, p }),
+                            }
+                        }
+                        all.push(Op::Remove { m: *m, p: PRef { i: 0xFFFF, noise: 0 } });
+                    }
+                    _ => {}
+                }
+            }
+            all.extend(ops);
+            Case {
+                ptype: ptype.to_string(),
+                usteps,
+                ops: all,
+                extra: vec![],
+            }
+        })
+        .boxed()
+}
+
 /// A full case for a fixed prefix type.
 pub fn case(ptype: &'static str, w: &Weights, max_uni: usize, max_ops: usize, n_extra: usize) -> BoxedStrategy<Case> {
     (usteps(2, max_uni), history(w, max_ops), vec(any::<u64>(), n_extra..=n_extra))
